@@ -1,4 +1,4 @@
-\* M+G (thorough, exhaustive, nested depth 1): <= 2 members, each a byte, a short, a pointer or a nested definition of <= 2 such members (alone or as an array of 2), both pointer sizes
+\* M+G (thorough, 1 case in 2 of the exhaustive enumeration - residue class chosen by the seed, nested depth 1): <= 2 members, each a byte, a short, a pointer or a nested definition of <= 2 such members (alone or as an array of 2), both pointer sizes
 CONSTANTS
   RawT = {"B", "h", "P"}
   ArrN = {}
@@ -14,7 +14,7 @@ CONSTANTS
   BitSplits <- BitSplitsNone
   PS = {32, 64}
   VCs = {"pat"}
-  Stride = 1
+  Stride = 2
   Dev = {}
   Mode = "gen"
 INIT Init
